@@ -31,9 +31,19 @@ CHECKS = {
             "(ties at infinity; the model sees a strictly increasing image), values handed over in tuples/lists/deques/float64, float32 and int64 arrays through the "
             "constructor, the keyword and the property, constrained histories (assign / set violation record incl. numeric records / delete in every order), and the statement itself "
             "is evaluated as an oracle on the real objects. Clone equality (clone_eq, cclone_eq) and the no-aliasing of assigned containers hold by construction in the "
-            "model (a value has no identity) and rest on the oracle: clones compared on the real objects, assigned lists mutated afterwards.",
+            "model (a value has no identity) and rest on the oracle: clones compared on the real objects, assigned lists mutated afterwards. Clones for EVERY weight "
+            "vector: clone_bitwise / cclone_bitwise (the clone carries the original's weighted values themselves, for any scalar type, no arithmetic), "
+            "clone_no_recompute (a clone rebuilt through the public values is the original iff (x/w)*w = x for every weighted value), reclone_field (so it is in every "
+            "ordered field), reclone_witness / recloneInv_witness / r64_div_mul_ne (kernel-checked: not so in binary64 - Core/Fitness.lean R64 = exact operation + "
+            "round-to-nearest-even to 53 bits; weight 49.0 value 0.020408163265306124; weights (-0.7, 1.3) values (0.1, 0.7) with inverse weights); the rclone stream "
+            "clones real fitnesses through copy.copy / copy.deepcopy / pickle (all protocols) / toolbox.clone / cloned and pickled individuals under arbitrary finite "
+            "non-zero float weights and arbitrary doubles (ordinary, power-of-two boundary, subnormal, saturating), demands `compares equal` and diffs the weighted values "
+            "bit for bit against the R64 model (itself cross-checked against the machine's Float in the driver). numpy fixed-width integer values (uint8..uint64, "
+            "int8..int64, each type's minimum and maximum, scalars and arrays) under float weights of both signs are judged on the exact value*weight.",
             TB + "IEEE products of the test inputs are exact (weights +-1 for the near-tie stream, small dyadics otherwise; model uses Rat); CPython tuple comparison/slicing "
-            "modelled in Core/Py.lean; the read-back clause is demanded for weights +-1 only, as the statement says, and for values that are doubles.",
+            "modelled in Core/Py.lean; the read-back clause is demanded for weights +-1 only, as the statement says, and for values that are doubles; binary64 "
+            "round-to-nearest-even = Fitness.rn64 in the normal range (replayed against Float and CPython on every rclone line); numpy integer values are paired with float "
+            "weights (64-bit integers beyond 2**53 are read as the doubles they convert to).",
             "Lean 4 proof over a hand-written model + differential correspondence + oracle"),
     "C02": ("full",
             "Lean theorems (C02.varAnd_/varOr_ count, parents_unchanged, inputs_unchanged, fresh, not_input, distinct, touched_invalid, untouched_is_clone/"
@@ -96,9 +106,18 @@ CHECKS = {
             "sign patterns for 1-4 objectives with dyadic values, vectors given as tuple/list/numpy.ndarray/array.array/range and scalars as int/float/numpy.float64, "
             "feasibility values of several truthy types, args/kwargs passthrough, 2-4 call sequences through ONE decorator instance with changing weight vectors, one "
             "decorator object decorating several functions, individuals and closest points carrying stale stored fitnesses; the statement is an oracle on the real "
-            "decorators.",
-            TB + "IEEE arithmetic on the dyadic test inputs is exact (model uses Rat); decorators_stateless / wrappers_independent are congruence facts that hold of "
-            "any Lean function - history independence of the implementation is established by the sequence streams.",
+            "decorators. Round 7: C19.penalty_class_isolation / _own_weights / _inherits / _later_classes / penalty_history_independent (the outcome depends on the "
+            "world of fitness classes - C01's FitClass model - only through the weights the individual's OWN class resolves to, and a history is the list of its "
+            "calls) and C19.feasible_passthrough_kwargs (the whole keyword map arrives, every name); correspondence streams: histories over families of related "
+            "fitness classes created per case (overriding / inheriting children and grandchildren, siblings, type() and creator.create, every order of first use, "
+            "1-2 decorator objects of one or both decorator classes decorating the same 1-2 functions; the model resolves the weights from the class table), a "
+            "keyword-name pool of 75 names (every identifier of constraint.py's wrappers, typical option names such as verbose/debug) with evaluation functions "
+            "whose VALUE depends on their options, and numpy fixed-width integer distances/constants (int8..uint64, scalars and arrays) x Python-int / float / numpy "
+            "constants at magnitudes on both sides of the width's range for both decorators. Known finding F36 (DeltaPenalty computes in the fixed-width integer "
+            "type of a numpy distance/constant and wraps or raises OverflowError) is classified for exactly that input class and reported as KNOWN-FINDING.",
+            TB + "IEEE arithmetic on the dyadic test inputs is exact (model uses Rat); decorators_stateless / wrappers_independent / penalty_history_independent are "
+            "congruence facts that hold of any Lean function - history independence of the implementation (also across fitness classes and decorator objects) is "
+            "established by the sequence and family streams. Inputs of known finding F36 are judged by the oracle alone (no model line).",
             "Lean 4 proof over a hand-written model + differential correspondence + oracle"),
     "C10": ("partial",
             "Lean theorems over the reals (C10.blend_sum/esblend_sum/sbx_sum, blend_range/esblend_range, sbx_welldefined, "
